@@ -20,7 +20,7 @@ var c19Prefixes = []string{"__gensym", "g", "__anon"}
 func c19Ops() []c19op {
 	var ops []c19op
 	for m := 0; m < 3; m++ {
-		for j := 0; j < 5; j++ {
+		for j := 0; j < 6; j++ {
 			ops = append(ops, c19op{0, m, j})
 		}
 		for j := 0; j < 3; j++ {
@@ -61,7 +61,7 @@ func c19RunSeq(seq []c19op, res *core.Result) (hist string, msg string) {
 	fam := []*zygo.Zlisp{base}
 	probe := base.GenSymbol("zz")
 	n0 := probe.Number()
-	names := []string{"alpha", "__gensym" + strconv.Itoa(n0+2), "g" + strconv.Itoa(n0+3), "__gensym" + strconv.Itoa(n0+4), "__anon" + strconv.Itoa(n0+3)}
+	names := []string{"alpha", "__gensym" + strconv.Itoa(n0+2), "g" + strconv.Itoa(n0+3), "__gensym" + strconv.Itoa(n0+4), "__anon" + strconv.Itoa(n0+3), ""}
 	m := &c19model{map[string]int{}, map[int]string{}, map[string]bool{}}
 	m.check(probe, false)
 	var h []string
@@ -113,7 +113,7 @@ func init() {
 	core.Register(&core.Prop{
 		ID:    "C19",
 		Level: "exploration",
-		Rule: "API histories over a family of interpreters sharing one symbol table: operations MakeSymbol(name) (name pool: a plain name and names shaped like generated symbols with counters just ahead of the members' next number: __gensym<n>, g<n>, __anon<n>), GenSymbol(prefix) with prefixes __gensym / g / __anon, Duplicate() and Clone(), each on any of up to three members — all sequences of length 4 (quick: 30^4 = 810000) / 5 (thorough: 24.3 million) exhaustively, sharded by their first two operations; plus script-level histories mixing str2sym, gensym, symnum, read, macro definitions and anonymous functions, names that differ only in letter case, checked through (== a b), (!= a b), equality of arrays and lists holding the symbols, (symnum x) and hash lookups keyed by symbols. " +
+		Rule: "API histories over a family of interpreters sharing one symbol table: operations MakeSymbol(name) (name pool: a plain name and names shaped like generated symbols with counters just ahead of the members' next number: __gensym<n>, g<n>, __anon<n>; and the empty name), GenSymbol(prefix) with prefixes __gensym / g / __anon, Duplicate() and Clone(), each on any of up to three members — all sequences of length 4 (quick: 33^4 = 1185921) / 5 (thorough: 39.1 million) exhaustively, sharded by their first two operations; plus script-level histories mixing str2sym, gensym, symnum, read, macro definitions and anonymous functions, names that differ only in letter case, checked through (== a b), (!= a b), equality of arrays and lists holding the symbols, (symnum x) and hash lookups keyed by symbols. " +
 			"Monitor: after every operation the returned symbol's (name, number) is entered into a global name<->number bijection; a generated symbol must be absent before the call. non-trivial = distinct sequence that contains a GenSymbol/gensym after a look-alike name was interned, or a Duplicate/Clone followed by interning on two different members",
 		Assumptions: []string{"sequences that address a member which does not exist yet are cut at that point"},
 		NCases: func(c *core.Ctx) int {
@@ -149,7 +149,7 @@ func c19Run(c *core.Ctx, i int) *core.Result {
 		for _, o := range seq {
 			switch o.kind {
 			case 0:
-				if o.j > 0 {
+				if o.j > 0 && o.j < 5 {
 					look = true
 				}
 				if fam {
@@ -192,7 +192,7 @@ func c19Run(c *core.Ctx, i int) *core.Result {
 	}
 	res.Nontrivial = len(nontrivial) > 0
 	if res.Verdict != core.Violated {
-		res.Input = fmt.Sprintf("all %d-operation sequences over 30 operations starting with %+v %+v", c19Depth(c), prefix[0], prefix[1])
+		res.Input = fmt.Sprintf("all %d-operation sequences over 33 operations starting with %+v %+v", c19Depth(c), prefix[0], prefix[1])
 	}
 	res.Hash = core.HashOf(fmt.Sprintf("c19-%d-%d", i, c19Depth(c)))
 	// the count of distinct non-trivial sequences is reported as an event (a case covers many sequences)
